@@ -229,3 +229,58 @@ Example C05_sample_ok :
   s_oof pfs s = false /\ s_panic pfs s = false /\ s_held pfs s = [] /\
   lifecycle_ok [] (rev (s_log pfs s)) = true /\ all_closed_once (s_nexth pfs s) (s_log pfs s) = true /\ s_nexth pfs s = 4 /\ s_fids pfs s = [].
 Proof. vm_compute. repeat split; reflexivity. Qed.
+
+(* --- round 5: static tie of the reference-counting code to the model --- *)
+From Coq Require Import String.
+From P9V Require gen.RefsGen Refs.GenTie.
+Local Open Scope string_scope.
+(** C05_code_skeleton: the event skeletons RefsGen extracts on every run from fidRef.DecRef, notifyDelete,
+    fidRef.markChildDeleted, notifyNameChange, fidRef.renameChildTo, connState.stop / LookupFID / InsertFID /
+    DeleteFID and doWalk (calls of the
+    reference / path-tree / File operations in order, each with receiver, arguments, path condition incl.
+    early returns, and closure / defer / loop context; locals substituted away) equal the table of
+    Refs/GenTie.v that was reviewed against Refs/Model.v function by function.  An equality with a reviewed
+    table (not a semantics of Go): it pins WHICH of these calls are made, in which order and under which
+    guards; the behaviour is tied by the differential. *)
+Theorem C05_code_skeleton : P9V.gen.RefsGen.refs_skeleton = P9V.Refs.GenTie.expected_skeleton.
+Proof. exact P9V.Refs.GenTie.refs_skeleton_reviewed. Qed.
+Print Assumptions C05_code_skeleton.
+
+(** Read off the GENERATED table: DecRef drops the parent reference (removeChild, parent.DecRef) when the count
+    reaches zero and a parent exists - under no other condition, in particular whatever Close returned (the
+    model's [decref] continues after an [AErr]); Close itself runs iff the count reached zero on a fidRef
+    that owns its File. *)
+Theorem C05_decref_drops_parent_unconditionally :
+  let l := P9V.Refs.GenTie.events_of "fidRef.DecRef" P9V.gen.RefsGen.refs_skeleton in
+  map (fun e => (P9V.Refs.GenTie.ev_name e, P9V.Refs.GenTie.ev_recv e, P9V.Refs.GenTie.ev_cond e))
+      (filter (fun e => P9V.Refs.GenTie.is_ev "removeChild" "$r.parent.pathNode" e || P9V.Refs.GenTie.is_ev "DecRef" "$r.parent" e) l) =
+  [("removeChild", "$r.parent.pathNode", ["(#0==0)"; "($r.parent!=nil)"]); ("DecRef", "$r.parent", ["(#0==0)"; "($r.parent!=nil)"])]%string /\
+  map (fun e => (P9V.Refs.GenTie.ev_name e, P9V.Refs.GenTie.ev_cond e)) (filter (P9V.Refs.GenTie.is_ev "Close" "$r.file") l) =
+  [("Close", ["(#0==0)"; "($r.xattrOf==nil)"])]%string.
+Proof. exact P9V.Refs.GenTie.decref_drops_parent_unconditionally. Qed.
+Print Assumptions C05_decref_drops_parent_unconditionally.
+
+(** Read off the generated table: a clone takes its reference on the origin's parent whenever there is one,
+    deleted entry or not; only nameFor / addChild are skipped for a deleted entry (model: [new_ref_inc] before
+    the [is_deleted] test of [do_walk]) - the reference DecRef will drop is always taken. *)
+Theorem C05_clone_takes_parent_reference :
+  let l := P9V.Refs.GenTie.events_of "doWalk" P9V.gen.RefsGen.refs_skeleton in
+  map P9V.Refs.GenTie.ev_cond (filter (P9V.Refs.GenTie.is_ev "IncRef" "$p1.parent") l) = [["(len($p2)==0)"; "($p1.xattrOf==nil)"; "(#2.4==nil)"; "!#4"]]%string /\
+  map P9V.Refs.GenTie.ev_cond (filter (P9V.Refs.GenTie.is_ev "addChild" "$p1.parent.pathNode") l) = [["(len($p2)==0)"; "($p1.xattrOf==nil)"; "(#2.4==nil)"; "!#4"; "!#5"]]%string /\
+  map (fun e => (P9V.Refs.GenTie.ev_name e, P9V.Refs.GenTie.ev_recv e)) (firstn 2 (skipn 4 l)) = [("hasParent", "$p1"); ("isDeleted", "#3")]%string.
+Proof. exact P9V.Refs.GenTie.clone_takes_parent_reference. Qed.
+Print Assumptions C05_clone_takes_parent_reference.
+
+(** Read off the generated table: the references renameChildTo takes for the Renamed notifications are dropped
+    by a DEFERRED loop registered before notifyNameChange runs, so a panic inside a Renamed callback does not
+    leak them (9cb54ca).  Backend panics are outside the model (no panic answer in [bans]): the clause
+    "every remaining File is closed once at disconnect" after such a panic is TESTED by the fault scenario
+    vhgRenamedPanic (panic injected into the Renamed of a File one / two levels below a renamed directory, then
+    every connection dropped; every File closed exactly once), not proved. *)
+Theorem C05_held_references_released_by_defer :
+  let l := P9V.Refs.GenTie.events_of "fidRef.renameChildTo" P9V.gen.RefsGen.refs_skeleton in
+  map (fun e => (P9V.Refs.GenTie.ev_name e, P9V.Refs.GenTie.ev_recv e, P9V.Refs.GenTie.ev_args e, P9V.Refs.GenTie.ev_cond e, P9V.Refs.GenTie.ev_ctx e)) (skipn 9 l) =
+  [("DecRef", "each1(var0)", [], ["(#1!=nil)"], ["defer"; "range var0"]);
+   ("notifyNameChange", "", ["#1"; "var0"], ["(#1!=nil)"], [])]%string.
+Proof. exact P9V.Refs.GenTie.held_references_released_by_defer. Qed.
+Print Assumptions C05_held_references_released_by_defer.
